@@ -620,7 +620,11 @@ loopX0:    \
     CMPQ len, $0   \
     JLE cryptoBlocksDone     \
     fillCounterX1()   \
-    cryptoBlockAsmRemain(rk,tmp,src,reg3,reg1,reg2,reg3,blockCount)  \
+    MOVQ len, reg2 \    // stage the 1~15 remaining input bytes through the scratch block: a 16-byte load from src would read past its end
+    copyAsm(tmp,src,len,reg3)  \
+    SUBQ reg2, tmp \
+    MOVQ reg2, len \
+    cryptoBlockAsmRemain(rk,tmp,tmp,reg3,reg1,reg2,reg3,blockCount)  \
     clearRight(tmp,len,reg3,reg2) \
     MOVQ len, reg2 \
     copyAsm(dst,tmp,len,reg3)  \
